@@ -1,5 +1,6 @@
 import TapkeeVerif.Model.FrontVal
 import TapkeeVerif.Gen.Keywords
+import TapkeeVerif.Gen.Predicates
 /-
 Shapes of the statements the translator recognises in `validate()`, `embed()`, `tapkee::embed`, the base
 constructor and `embedUsing` (needs the generated keyword enumeration).  Core Lean only.
@@ -45,24 +46,27 @@ def BExpr.params : BExpr → List Kw
 structure BEnv where
   n : Int                 -- n_vectors
   dim : Int               -- current_dimension (0 when the features callback is a dummy)
-  val : Kw → Rat          -- numeric value of a parameter
+  val : Kw → XReal        -- numeric value of a parameter
 
 /-- `static_cast<IndexType>` of a `double`: truncation toward zero -/
-def truncRat (q : Rat) : Int := Int.tdiv q.num q.den
+abbrev truncRat (q : Rat) : Int := XReal.truncQ q
 
-def BExpr.eval (env : BEnv) : BExpr → Rat
-  | .intLit i => (i : Rat)
-  | .realLit q => q
-  | .nVectors => (env.n : Rat)
-  | .currentDimension => (env.dim : Rat)
+def BExpr.eval (env : BEnv) : BExpr → XReal
+  | .intLit i => .fin (i : Rat)
+  | .realLit q => .fin q
+  | .nVectors => .fin (env.n : Rat)
+  | .currentDimension => .fin (env.dim : Rat)
   | .param kw => env.val kw
-  | .toInt a => (truncRat (a.eval env) : Rat)
+  | .toInt a => XReal.trunc (a.eval env)
   | .toReal a => a.eval env
   | .add a b => a.eval env + b.eval env
   | .sub a b => a.eval env - b.eval env
   | .mul a b => a.eval env * b.eval env
   | .div a b =>
-      if a.isInt && b.isInt then ((Int.tdiv (a.eval env).num (b.eval env).num : Int) : Rat)   -- int / int truncates
+      if a.isInt && b.isInt then                     -- int / int truncates
+        match a.eval env, b.eval env with
+        | .fin x, .fin y => .fin ((Int.tdiv x.num y.num : Int) : Rat)
+        | _, _ => .nan
       else a.eval env / b.eval env
   | .neg a => - a.eval env
 
@@ -81,15 +85,26 @@ def Pred.params : Pred → List Kw
   | .inRange _ lo hi | .inClosedRange _ lo hi => lo.params ++ hi.params
   | _ => []
 
-/-- does the numeric value `v` satisfy the predicate? -/
-def Pred.holds (env : BEnv) (v : Rat) : Pred → Prop
-  | .positivity _ => 0 < v
-  | .nonNegativity _ => 0 ≤ v
-  | .inRange _ lo hi => lo.eval env ≤ v ∧ v < hi.eval env
-  | .inClosedRange _ lo hi => lo.eval env ≤ v ∧ v ≤ hi.eval env
+def Pred.kind : Pred → PredKind
+  | .positivity _ => .positivity
+  | .nonNegativity _ => .nonNegativity
+  | .inRange _ _ _ => .inRange
+  | .inClosedRange _ _ _ => .inClosedRange
 
-instance (env : BEnv) (v : Rat) (p : Pred) : Decidable (p.holds env v) := by
-  cases p <;> unfold Pred.holds <;> infer_instance
+def Pred.lower (env : BEnv) : Pred → XReal
+  | .inRange _ lo _ | .inClosedRange _ lo _ => lo.eval env
+  | _ => 0
+
+def Pred.upper (env : BEnv) : Pred → XReal
+  | .inRange _ _ hi | .inClosedRange _ _ hi => hi.eval env
+  | _ => 0
+
+/-- does the value `v` satisfy the predicate?  The body of `operator()` is the generated `Gen.predBody`. -/
+def Pred.holds (env : BEnv) (v : XReal) (p : Pred) : Prop :=
+  (predBody p.kind).eval v (p.lower env) (p.upper env)
+
+instance (env : BEnv) (v : XReal) (p : Pred) : Decidable (p.holds env v) := by
+  unfold Pred.holds; infer_instance
 
 /-- `parameters[kw].checked().satisfies(pred)[.orThrow()];` -/
 structure VStep where
@@ -97,18 +112,6 @@ structure VStep where
   pred : Pred
   orThrow : Bool
   deriving DecidableEq, Repr, Inhabited
-
-/-- comparison operators of a guard -/
-inductive Cmp where
-  | gt | ge | lt | le | eq
-  deriving DecidableEq, Repr, Inhabited
-
-def Cmp.holds (c : Cmp) (a b : Rat) : Prop :=
-  match c with
-  | .gt => b < a | .ge => b ≤ a | .lt => a < b | .le => a ≤ b | .eq => a = b
-
-instance (c : Cmp) (a b : Rat) : Decidable (c.holds a b) := by
-  cases c <;> unfold Cmp.holds <;> infer_instance
 
 /-- a statement of `validate()`: a check, or `if (lhs cmp rhs) check;` -/
 inductive VStmt where
